@@ -60,12 +60,14 @@ StoreStd == {
 \* c17: generic selectors and class/id lookup
 SelsC17 == <<".a", ".a-b", "#i", ".a .b", ".a > #i", "#i.a", ".a\\31", ".a\\31 b", ".\\61 b", ".a\\.b", ".é", ".aé b",
              "div.a", "[x]", "..a", ".a:hover", "#i[x]", ".a,.b", ".ab", "#a", ".A", ".-a", "._", "a.b", "*.a", ".\\e9",
-             ".x\\3A y", "#\\3a z", ".x\\3A"  >>
+             ".x\\3A y", "#\\3a z", ".x\\3A",
+             \* a six-digit escape ends after its sixth digit even when a hex digit follows; an escaped blank at either end of a name
+             ".\\000061b", ".\\000061 b", "#\\00003aa", "#\\ i", ".a\\  .b", ".\\ a" >>
 PoolC17 == [i \in DOMAIN SelsC17 |-> HideR({}, SelsC17[i])]
      \o << UnhideR({H("a.com")}, ".a"), UnhideR({H("a.com")}, ".a .b"), HideR({NH("a.com")}, ".ng"), HideR({NH("a.com")}, "ng2") >>
 HostsC17 == <<"a.com", "b.com">>
-ClassSetsStd == << {"a"}, {"a-b", "ab"}, {"a1", "a.b"}, {"é", "aé"}, {"A", "-a", "_"}, {"ng"}, {"a1b", "ab"}, {"x:y", "x:"}, {} >>
-IdSetsStd == << {"i"}, {"a"}, {":z"}, {} >>
+ClassSetsStd == << {"a"}, {"a-b", "ab"}, {"a1", "a.b"}, {"é", "aé"}, {"A", "-a", "_"}, {"ng"}, {"a1b", "ab"}, {"x:y", "x:"}, {"a ", " a"}, {} >>
+IdSetsStd == << {"i"}, {"a"}, {":z"}, {" i", ":a"}, {} >>
 \* the parse universe uses the selectors '.x' and '#id > .x'
 ClassSets == IF U = "parse" THEN << {"x"}, {} >> ELSE IF U = "rand" THEN << {"x", "y"}, {"y"}, {} >> ELSE ClassSetsStd
 IdSets == IF U = "parse" THEN << {"id"}, {} >> ELSE IF U = "rand" THEN << {"i"}, {} >> ELSE IdSetsStd
